@@ -44,3 +44,32 @@ if m:
 s = s[:a] + text + notes + "\n\n" + s[b:]
 open(p, "w").write(s)
 print(n, "seeded,", caught_n, "caught")
+
+# ---- refactorings (false-alarm test)
+rrows = []
+for d in sorted(glob.glob(os.path.join(HERE, "refactors", "*"))):
+    if not os.path.exists(os.path.join(d, "meta.json")):
+        continue
+    m = json.load(open(os.path.join(d, "meta.json")))
+    stat = (m.get("diffstat") or [""])[0].strip()
+    what = str(m.get("what", ""))[:200].replace("|", "/").replace("\n", " ")
+    res = ", ".join(f"{c}:{v['exit']}" for c, v in m.get("checks", {}).items())
+    rrows.append(f"| {os.path.basename(d)} | {what} | {stat} | {res} | {'quiet' if m.get('all_quiet') else '**ALARM**'} |")
+rtext = f"""### 11.2 Behaviour-preserving refactorings (false-alarm test)
+
+Five further sub-agents each produced two substantial behaviour-preserving refactorings of one area (replay buffers; DDPG/TD3/SAC
+loops; loggers/checkpointer/assessment; DQN family + tabular learners; TD7/MR.Q/multi-task), verified by them to be bit-identical on
+fixed seeds. Each patch was applied to `/repo`, the listed quick checks were run (`tools/refactor_eval.py`), `/repo` restored.
+Required outcome: every check exits 0. Result: {sum(1 for r in rrows if 'quiet' in r)} of {len(rrows)} quiet. (The first evaluation of R1_2 raised `C01.a` in a
+multi-task plan — a harness error of that hour: `train_uts` was given a multi-task buffer it never routes; fixed in the harness,
+R1 re-run quiet.)
+
+| id | what was restructured | diffstat | checks run : exit | result |
+|---|---|---|---|---|
+""" + "\n".join(rrows) + "\n"
+s = open(p).read()
+s = re.sub(r"### 11\.2 Behaviour-preserving.*?(?=\n-{20,}\n## 12\.)", "", s, flags=re.S)
+b = s.index("--------------------------------------------------------------------------------\n## 12.")
+s = s[:b] + rtext + "\n\n" + s[b:]
+open(p, "w").write(s)
+print(len(rrows), "refactorings")
